@@ -51,6 +51,11 @@ pub(super) struct Stream {
     /// Task tracking additional send capacity (i.e. window updates).
     send_task: Option<Waker>,
 
+    /// Task waiting for this stream to leave `pending_open`
+    /// (`SendRequest::poll_ready`). This is a different task than the one
+    /// using the `SendStream`, so it needs its own slot.
+    open_task: Option<Waker>,
+
     /// Frames pending for this stream being sent to the socket
     pub pending_send: buffer::Deque,
 
@@ -171,6 +176,7 @@ impl Stream {
             requested_send_capacity: 0,
             buffered_send_data: 0,
             send_task: None,
+            open_task: None,
             pending_send: buffer::Deque::new(),
             is_pending_send_capacity: false,
             next_pending_send_capacity: None,
@@ -364,6 +370,14 @@ impl Stream {
         if let Some(task) = self.send_task.take() {
             task.wake();
         }
+
+        if let Some(task) = self.open_task.take() {
+            task.wake();
+        }
+    }
+
+    pub fn wait_open(&mut self, cx: &Context) {
+        self.open_task = Some(cx.waker().clone());
     }
 
     pub fn wait_send(&mut self, cx: &Context) {
